@@ -10,6 +10,7 @@ import glob
 import json
 import os
 import random
+import tempfile
 
 import cvlib
 import vlib
@@ -324,6 +325,71 @@ def run_api_singular(seed):
     return bad
 
 
+CHAIN_DOC = """<?xml version="1.0"?>
+<model xmlns="http://www.cellml.org/cellml/1.0#" name="chain">
+  <units name="u1"><unit units="%(base)s" %(a1)s/></units>
+  <units name="u2"><unit units="%(base)s" %(a2)s/></units>
+  <units name="u3"><unit units="%(base)s" %(a3)s/></units>
+  <component name="env"><variable name="t" units="second" public_interface="out"/>
+    <variable name="x" units="u1" public_interface="out" initial_value="2"/>
+    <math xmlns="http://www.w3.org/1998/Math/MathML"><apply><eq/><apply><diff/><bvar><ci>t</ci></bvar><ci>x</ci></apply>
+      <cn xmlns:cellml="http://www.cellml.org/cellml/1.0#" cellml:units="u1_per_s">1</cn></apply></math></component>
+  <units name="u1_per_s"><unit units="u1"/><unit units="second" exponent="-1"/></units>
+  <component name="cell"><variable name="x" units="u2" public_interface="in" private_interface="out"/>
+    <variable name="y" units="u2"/>
+    <math xmlns="http://www.w3.org/1998/Math/MathML"><apply><eq/><ci>y</ci><apply><plus/><ci>x</ci><cn xmlns:cellml="http://www.cellml.org/cellml/1.0#" cellml:units="u2">1</cn></apply></apply></math></component>
+  <component name="gate"><variable name="x" units="u3" public_interface="in"/>
+    <variable name="z" units="u3"/>
+    <math xmlns="http://www.w3.org/1998/Math/MathML"><apply><eq/><ci>z</ci><apply><plus/><ci>x</ci><cn xmlns:cellml="http://www.cellml.org/cellml/1.0#" cellml:units="u3">1</cn></apply></apply></math></component>
+  <connection><map_components component_1="%(c1)s" component_2="%(c2)s"/><map_variables variable_1="x" variable_2="x"/></connection>
+  <connection><map_components component_1="%(c3)s" component_2="%(c4)s"/><map_variables variable_1="x" variable_2="x"/></connection>
+  <group><relationship_ref relationship="encapsulation"/><component_ref component="cell"><component_ref component="gate"/></component_ref></group>
+</model>"""
+
+
+def run_chain_doc(k):
+    """a value handed through TWO successive converting connections (env [u1] -> cell [u2] -> encapsulated gate [u3]): every
+    number the loader creates for the connections is a quantity of the model; also after the unit-fix pass"""
+    import cellmlmanip
+    rng = random.Random(k)
+    base = rng.choice(['second', 'volt', 'mole', 'metre'])
+    attrs = rng.sample(['prefix="milli"', 'prefix="micro"', '', 'multiplier="60"', 'prefix="kilo"', 'prefix="-9"'], 3)
+    first_up = rng.random() < 0.5
+    doc = CHAIN_DOC % {'base': base, 'a1': attrs[0], 'a2': attrs[1], 'a3': attrs[2],
+                       'c1': 'env' if first_up else 'cell', 'c2': 'cell' if first_up else 'env',
+                       'c3': 'cell' if rng.random() < 0.5 else 'gate', 'c4': None}
+    doc = doc.replace('component_1="gate" component_2="None"', 'component_1="gate" component_2="cell"') \
+             .replace('component_1="cell" component_2="None"', 'component_1="cell" component_2="gate"')
+    if rng.random() < 0.5:     # downstream connection listed first
+        i, j = doc.index('<connection>'), doc.index('</connection>') + len('</connection>')
+        first = doc[i:j]
+        doc = doc[:i] + doc[j:].replace('<group>', first + '<group>', 1)
+    d = tempfile.mkdtemp(prefix='c18_')
+    path = os.path.join(d, 'm.cellml')
+    try:
+        with open(path, 'w') as f:
+            f.write(doc)
+        try:
+            m = cellmlmanip.load_model(path)
+        except Exception as e:
+            return [('a document with two successive converting connections is refused: %r' % (e,), {'chain': k})]
+        bad = scan(m, 'document with two successive converting connections (%s: %s -> %s -> %s), after loading' % (base, *attrs))
+        if not bad:
+            for eq in list(m.equations):
+                new = m.units.convert_expression_recursively(eq, None)
+                if new is not eq:
+                    m.remove_equation(eq)
+                    m.add_equation(new)
+            bad = scan(m, 'document with two successive converting connections, after the unit-fix pass')
+        return [(w, dict(dt, chain=k)) for w, dt in bad]
+    finally:
+        try:
+            os.remove(path)
+            os.rmdir(d)
+        except OSError:
+            pass
+
+
 def run(ctx):
     n = 100 if ctx.tier == 'quick' else 1200
     ctx.rule = ('(a) the C06 histories (generated unit-consistent models, 1-4 conversions, unit-fix pass after each) scanned after '
@@ -363,6 +429,11 @@ def run(ctx):
         for what, detail in bad:
             ctx.violation(what, {'doc': list(a)})
     ctx.sample({'doc_case': list(dargs[0])})
+    cks = [ctx.seed * 1000 + i for i in range(16 if ctx.tier == 'quick' else 200)]
+    for ck, bad in zip(cks, vlib.pmap(run_chain_doc, cks)):
+        ctx.count(case_key=('chain-doc', ck), kind='chain-doc')
+        for what, detail in bad:
+            ctx.violation(what, {'chain_doc': ck})
     seeds = [ctx.seed * 1000 + i for i in range(24 if ctx.tier == 'quick' else 300)]
     for sd, bad in zip(seeds, vlib.pmap(run_api_singular, seeds)):
         ctx.count(case_key=('api-singular', sd), kind='api-singular')
@@ -371,6 +442,9 @@ def run(ctx):
 
 
 def replay(ctx, case):
+    if 'chain_doc' in case:
+        bad = run_chain_doc(case['chain_doc'])
+        return bad[0][0] if bad else None
     if 'doc' in case:
         bad, _ = run_doc(tuple(case['doc']))
         return bad[0][0] if bad else None
